@@ -735,3 +735,12 @@ def conditions(tier, seed):
                             bounds=f"importer form A={fa} x {NWAY} ways of giving template globals x {NFORM} forms B x {NWAY} ways x env global on/off"
                                    " x module pre-touched (sync) x a failing render (global callable raising in the library body) of A / of B / none first"))
     return out
+
+
+def known_namespace_in_cached_module_ok():
+    """Known-finding witness: a namespace created at the top level of an imported template keeps state across renders."""
+    from jinja2 import DictLoader as _D, Environment as _E
+    e = _E(loader=_D({"lib": "{% set ns = namespace(c=0) %}{% macro bump() %}{% set ns.c = ns.c + 1 %}{{ ns.c }}{% endmacro %}",
+                      "main": "{% import 'lib' as lib %}{{ lib.bump() }}"}))
+    t = e.get_template("main")
+    return t.render() == t.render()
